@@ -38,6 +38,10 @@ type WorldConfig struct {
 	UnsubDelayMs      int      `json:"unsubDelayMs,omitempty"`     // 0 = no delay (NoUnsubscribeDelay)
 	PreciseRetention  bool     `json:"preciseRetention,omitempty"` // judge the known retention findings by their exact conditions (acyclic, event-free histories)
 	Procs             int      `json:"procs,omitempty"`
+	// Listen: the gateway also listens on real loopback ports (API, and metrics
+	// when ListenMetrics); the harness clients keep using the in-memory pipes
+	Listen        bool `json:"listen,omitempty"`
+	ListenMetrics bool `json:"listenMetrics,omitempty"`
 	// Protocol: clients follow the protocol; an unsubscribe for more than the
 	// confirmed direct subscriptions is a no-op (keeps shrunk scripts in the domain).
 	Protocol bool `json:"protocol,omitempty"`
@@ -133,6 +137,8 @@ type World struct {
 	StopErrs    []string
 	stopCh      <-chan error
 	StopSeen    []string
+	Port        int               // real API port (Listen)
+	MetricsPort int               // real metrics port (ListenMetrics)
 	qevSubjects map[string]string // query event subject -> resource name
 	Monitors    []Monitor
 	tokens      map[int][]string // actor -> token history (JSON text), "" = none
@@ -179,6 +185,19 @@ func NewWorld(cfg WorldConfig) (*World, error) {
 	var sc server.Config
 	sc.SetDefault()
 	sc.NoHTTP = true
+	if cfg.Listen {
+		// (the ports were free a moment ago; a lost race for one shows as a failed
+		// Start and makes the case inconclusive)
+		sc.NoHTTP = false
+		lo := "127.0.0.1"
+		sc.Addr = &lo
+		w.Port = freePort()
+		sc.Port = uint16(w.Port)
+		if cfg.ListenMetrics {
+			w.MetricsPort = freePort()
+			sc.MetricsPort = uint16(w.MetricsPort)
+		}
+	}
 	sc.NoUnsubscribeDelay = cfg.UnsubDelayMs == 0
 	sc.ResetThrottle = cfg.ResetThrottle
 	sc.ReferenceThrottle = cfg.ReferenceThrottle
@@ -195,7 +214,7 @@ func NewWorld(cfg WorldConfig) (*World, error) {
 	sc.DELETEMethod = strp(cfg.DELETEMethod)
 	sc.PATCHMethod = strp(cfg.PATCHMethod)
 	sc.WSPath = "/ws"
-	if cfg.Metrics {
+	if cfg.Metrics && !cfg.Listen {
 		sc.MetricsPort = 9090
 	}
 	svc, err := server.NewService(w.mq, sc)
@@ -1065,4 +1084,24 @@ func jsonCompact(b []byte) string {
 	}
 	o, _ := json.Marshal(v)
 	return string(o)
+}
+
+// freePort returns a loopback TCP port that was free when asked.
+func freePort() int {
+	ln, err := net.Listen("tcp", "127.0.0.1:0")
+	if err != nil {
+		return 0
+	}
+	defer ln.Close()
+	return ln.Addr().(*net.TCPAddr).Port
+}
+
+// PortOpen reports whether something accepts TCP connections on the loopback port.
+func PortOpen(port int) bool {
+	c, err := net.DialTimeout("tcp", fmt.Sprintf("127.0.0.1:%d", port), 500*time.Millisecond)
+	if err != nil {
+		return false
+	}
+	c.Close()
+	return true
 }
